@@ -595,7 +595,9 @@ def _run_tf(c):
             b = None
             if not masked[n]:
                 b = _np_custom(custom, np.asarray(grads[t][n]), t) if custom else np.asarray(base[t][n])
-            if b is not None and t >= start and not np.isfinite(np.asarray(b, np.float64)).all():
+            if (b is not None and t >= start and not np.isfinite(np.asarray(b, np.float64)).all()) or \
+                    (G == "ADAFACTOR" and not np.isfinite(gstep).all()):
+                # the second-order update (C08/C09/C15) or optax's ADAFACTOR step itself is non-finite: no verdict on grafting
                 stats["inconclusive_reference_diverged"] = stats.get("inconclusive_reference_diverged", 0) + 1
             elif not np.isfinite(u).all():
                 fails.append({"what": f"{where}: non-finite update", "leaf": n, "t": t})
